@@ -181,7 +181,7 @@ func (w *World) evBroadcast(pkg, typ string) Ev {
 var ltaProtocolKinds = []string{
 	"incarnation-replaced-without-Stopped", "delivery-after-Stopped", "Stopped-twice", "Initialized-out-of-order",
 	"Started-out-of-order", "user-message-before-Started", "delivery-of-unknown-message", "Stopped-without-incarnation",
-	"terminated-without-Stopped", "spawn-returns-before-Started", "unclassified-delivery", "inbox-started-after-cleanup",
+	"terminated-without-Stopped", "spawn-returns-before-Started", "unclassified-delivery", "inbox-started-after-cleanup", "spawn-leaves-inbox-closed",
 }
 
 func checkC04(w *World, r *Report) {
@@ -247,6 +247,7 @@ func checkC04(w *World, r *Report) {
 	pr.lta.export(r, "C04.R3", ltaProtocolKinds, "lifecycle protocol")
 	r.Rule("C04.R4", "the worker loop re-reads the status before every batch: nothing is handed to a process that the previous batch stopped", 1)
 	checkLoopStatus(w, r, "C04.R4")
+	checkInboxStopStores(w, r, "C04.R4")
 }
 
 // checkStopFn: shared by C04.R2, C06.R3.
@@ -409,6 +410,7 @@ func checkC05(w *World, r *Report) {
 	}
 
 	checkReplayCursor(w, r, pr)
+	checkStartClearsBuffer(w, r, "C05.R2")
 
 	// R4
 	{
@@ -547,8 +549,28 @@ func checkReplayCursor(w *World, r *Report, pr *procRoles) {
 				}
 			}
 		}
-		r.Check(ok, "C05.R3", fname(rec)+":buffer-from-cursor", "the replay buffer is copied from the batch starting at the cursor", w.fnPos(rec),
-			"the recover handler does not index the batch by the shared cursor")
+		// and the buffer is a fresh slice sized from the cursor, allocated before the copy
+		alloc := false
+		cn := freeVarName(rec, cursor, g)
+		rg := w.FG(rec)
+		for i, in := range rg.ins {
+			if st, isSt := in.(*ssa.Store); isSt {
+				if fa, isFA := st.Addr.(*ssa.FieldAddr); isFA && isFieldOf(fa, pr.procT, "mbuffer") {
+					if p := w.pathOf(st.Val); strings.HasPrefix(p, "makeslice(") && strings.Contains(p, "FV:"+cn) {
+						alloc = true
+						for j, in2 := range rg.ins {
+							if st2, ok2 := in2.(*ssa.Store); ok2 {
+								if ia, isIA := st2.Addr.(*ssa.IndexAddr); isIA && strings.HasSuffix(w.pathOf(ia.X), ".mbuffer") && !rg.Before(setOf(len(rg.ins), i), j) {
+									alloc = false
+								}
+							}
+						}
+					}
+				}
+			}
+		}
+		r.Check(ok && alloc, "C05.R3", fname(rec)+":buffer-from-cursor", "the replay buffer is a fresh slice sized from the cursor, filled from the batch starting at the cursor", w.fnPos(rec),
+			"the recover handler does not (allocate and) fill the restart buffer from the batch at the shared cursor: the copy panics inside the recover handler or replays the wrong messages")
 	}
 	inc := make([]bool, len(g.ins))
 	for i, in := range g.ins {
@@ -1129,6 +1151,7 @@ func checkC07(w *World, r *Report) {
 	checkPillLinearity(w, r, pr, "C07.R5")
 	r.Rule("C07.R7", "the worker loop re-reads the status before every batch: a stopped actor never sees a further batch (second pill, later messages)", 1)
 	checkLoopStatus(w, r, "C07.R7")
+	checkInboxStopStores(w, r, "C07.R7")
 
 	// R6: a crash while the pill is held (between recognising it and handing its cancel to the stop
 	// function) loses the pill: the recover handler can neither cancel nor re-buffer it.
@@ -1292,6 +1315,7 @@ func checkC13(w *World, r *Report) {
 	checkApplyMW(w, r, pr)
 	r.Rule("C13.R4", "the chain given at spawn belongs to that spawn alone (fresh middleware slice per Opts)", 2)
 	checkDefaultOptsFresh(w, r, "C13.R4")
+	checkOptionStores(w, r, "C13.R4", "WithMiddleware", "Middleware", "append(P0.Middleware,FV:mw)")
 	// R3: every delivery site: argument is P0.context / FV:p.context; in the delivery function message and sender stores precede it
 	evD := pr.evDeliver()
 	n := 0
